@@ -370,13 +370,16 @@ def check_envelope_path(o, msg):
     cn = {x for x in nth(ctrls) if x[1] == base}
     first = ('nth', base, direction, 0)
     is_ctx0 = any(t and a == ('bin', 'Eq', ('field', ('variant', first, 'Some', 0), 'id'), ('lit', 0)) for a, t in o.st.pc) and \
-        any(t and a[0] == 'bin' and a[1] == 'Eq' and a[2] == ('field', ('variant', first, 'Some', 0), 'class') and a[3] == ('ctor', 'TagClass::Context', ()) for a, t in o.st.pc)
+        any(t and ((a[0] == 'bin' and a[1] == 'Eq' and a[2] == ('field', ('variant', first, 'Some', 0), 'class') and a[3] == ('ctor', 'TagClass::Context', ())) or
+                   a == ('is', ('field', ('variant', first, 'Some', 0), 'class'), 'TagClass::Context')) for a, t in o.st.pc)      # `class == Context` or a pattern `TagClass::Context`
     if direction == 'pop':
         if cn:
             if {x[3] for x in cn} != {k - 1} or k - 1 != 0:
                 return False, 'controls are read from child ordinal %s, expected the trailing child' % sorted(x[3] for x in cn)
             if not is_ctx0:
                 return False, 'controls are taken from a trailing child that was not tested to be [0] context'
+            if not any(t and a == ('is', ('field', ('variant', first, 'Some', 0), 'payload'), 'PL::C') for a, t in o.st.pc):
+                return False, 'controls are taken from a trailing [0] child that was not tested to be constructed (the control-list decoder unwraps it as constructed: a primitive [0] panics the driver)'
             if not any(c2[1].endswith('parse_controls') for c2 in absx.leaves(ctrls, lambda x: x[0] == 'call')):
                 return False, 'controls are not decoded with parse_controls'
         else:
